@@ -37,7 +37,11 @@ func buildNodeDigest(
 			action.DockerOut = meta.dockerOut
 		}
 		if fs, ok := n.rule.(*fileSet); ok {
-			action.FileNodes = fs.fileNodes(env)
+			nodes, err := fs.fileNodes(env)
+			if err != nil {
+				return "", errcode.Annotate(err, "digest file nodes")
+			}
+			action.FileNodes = nodes
 		}
 		d, err := makeDigest("build_action", "", action)
 		if err != nil {
